@@ -14,3 +14,10 @@ open Verif.Props.C06
 #print axioms comments_only_removed
 #print axioms xml_wellformed
 #print axioms xml_nesting
+#print axioms trailing_space_lookahead
+#print axioms trailing_space_exact
+#print axioms trailing_space_only_if
+#print axioms trailing_space_kept
+#print axioms cdend_any_split
+#print axioms cdend_count_carried
+#print axioms xml_no_cdend
